@@ -153,6 +153,14 @@ class ProgGen:
 
     def cond(self, scope):
         e = self.expr(scope, 1)
+        if self.r.random() < 0.12:
+            # four or five precedence levels rising to the right: || < && < comparison < + < * (< **)
+            leaf = lambda: self.num(scope, 3)  # noqa: E731
+            top = B(self.r.choice(['+', '-']), leaf(), B(self.r.choice(['*', '*', '**']) if not self.typed else '*', leaf(), N(self.r.randint(1, 2))))
+            e = B('&&', B(self.r.choice(['<', '<=', '>']), leaf(), N(self.r.randint(0, 6))), B(self.r.choice(['!=', '==', '<']), leaf(), top))
+            if self.r.random() < 0.5:
+                e = B('||', B('>', leaf(), N(self.r.randint(2, 9))), e)
+            self.features.add('deep-precedence-condition')
         if self.probes and self.r.random() < 0.3:
             self.tag += 1
             e = C('hp', S(f'c{self.tag}'), e)
